@@ -21,6 +21,13 @@ def swarm(rng):
     return cfg
 
 
+def _differs(a, b):
+    try:
+        return bool(a != b)
+    except Exception:
+        return True         # (a cells compared with a value raises: they are not the same thing)
+
+
 class NamesOracle(history.Oracle):
     def after(self, op, out):
         if op["op"] in ("eval", "gc") or out["st"] == "skip":
@@ -121,8 +128,8 @@ class NamesOracle(history.Oracle):
                 except Exception as e:
                     raise Violation("C12/dynamic-space-reference-not-accessible/" + op["op"], {"instance": label, "name": n, "exc": type(e).__name__})
                 self.ctx.count("dynamic_precedence_checks", 1, "reach")
-                if got is not v and got != v:
-                    raise Violation("C12/dynamic-space-reference-precedence/" + ("model-level-wins" if n in m.refs and (m.refs[n] is got or m.refs[n] == got) else "other"),
+                if got is not v and _differs(got, v):
+                    raise Violation("C12/dynamic-space-reference-precedence/" + ("model-level-wins" if n in m.refs and (m.refs[n] is got or not _differs(m.refs[n], got)) else "other"),
                                     {"instance": label, "name": n, "got": repr(got)[:60], "space_level": repr(v)[:60], "op": strip(op)})
             for cn in sorted(static.spaces):
                 if cn in dyn.spaces:
